@@ -297,6 +297,24 @@ fn dbstate_batch() {
                     f.save(&mut ptx).unwrap();
                     "done".to_string()
                 }
+                op if op.starts_with("twophase:") => {
+                    // twophase:<finish 0|1>:<namehex>-<m|c>,...
+                    let f3: Vec<&str> = op.split(':').collect();
+                    f.zap_deps1(&mut ptx).unwrap();
+                    if f3.len() > 2 && !f3[2].is_empty() {
+                        for d in f3[2].split(',') {
+                            let nd: Vec<&str> = d.split('-').collect();
+                            let name = String::from_utf8(unhex(nd[0])).unwrap();
+                            let mode = if nd[1] == "m" { DepMode::Modified } else { DepMode::Created };
+                            let p = ptx.state().env().base().join(&name);
+                            f.add_dep(&mut ptx, mode, &p).unwrap();
+                        }
+                    }
+                    if f3[1] == "1" {
+                        f.zap_deps2(&mut ptx).unwrap();
+                    }
+                    "done".to_string()
+                }
                 _ => panic!("unknown op"),
             };
             ptx.commit().unwrap();
